@@ -42,8 +42,13 @@ Mut == LET e == Log[l] IN
             [] e.op = "ool"  -> IF Len(e.g) = 0 THEN e.res = OkChild(<<>>)
                                 ELSE FlipAccepts(e.g, 1, Len(e.g), e.res)
             [] e.op = "umad" -> /\ e.res.k = "ok"
-                                /\ UmadAccepts(e.g, e.res.child, e.addN, e.addD, e.delN, e.delD,
-                                               e.ek, e.eN, e.eD, 1000)
+                                /\ UmadAcceptsIn(e.g, e.res.child, e.addN, e.addD, e.delN, e.delD,
+                                                 e.ek, e.eN, e.eD, {e.new[k] : k \in 1..Len(e.new)})
+            (* a LONG genome (up to 2^24 + 1 genes; scalars only): mutation succeeds, the  *)
+            (* length is kept, rate 0 changes nothing and a flip rate >= 1 everything      *)
+            [] e.op = "bigflip" -> /\ e.res.k = "ok" /\ e.res.len = e.len
+                                   /\ (~e.ool /\ e.num = 0 => e.res.changed = 0)
+                                   /\ (~e.ool /\ e.num >= e.den => e.res.changed = e.len)
 
 TraceInit == l = 1
 TraceNext == l <= Len(Log) /\ l' = l + 1 /\ (Xo \/ Xch \/ Mut)
